@@ -168,7 +168,22 @@ def finish(ctx, spec, proof, t0):
               assumptions=spec.get("assumptions", []) + ctx.assumptions,
               wall_s=round(time.time() - t0, 2), violations=nviol,
               log=[{k: (v if k != "out" else v[-400:]) for k, v in e.items()} for e in ctx.log])
-    C.write_evidence(ctx.prop, ev)
+    if C.REPO == "/repo":
+        C.write_evidence(ctx.prop, ev)
+    else:
+        # a scratch copy of the repository (VERIF_REPO, used to try seeded changes): the committed evidence
+        # must describe /repo itself, so this run's record goes to the work directory
+        with open(os.path.join(ctx.workdir, "evidence-scratch.json"), "w") as f:
+            json.dump(ev, f, indent=1)
+    # append-only record of every violation reported (post-mortem of anything that does not reproduce)
+    try:
+        with open(os.path.join(C.WORK, "violations.log"), "a") as f:
+            for v in ctx.violations:
+                f.write(json.dumps(dict(t=time.strftime("%F %T"), prop=ctx.prop, tier=ctx.tier, seed=ctx.seed,
+                                        repo=C.REPO, kind=v["kind"], what=v["what"], key=v.get("key"),
+                                        replay=v.get("replay")))[:6000] + "\n")
+    except OSError:
+        pass
     for l in out_lines:
         print(l)
     print(f"{ctx.prop} {ctx.tier}: obligations {proof['discharged']}/{proof['obligations']}, "
